@@ -14,6 +14,8 @@ CONSTANTS
  PublishOnlyLatest = FALSE
  HoldVfsAcrossApply = FALSE
  SnapshotInTask = FALSE
+ CancelledAnsweredOk = FALSE
+ AnsFree = TRUE
  PollWhileWaiting = FALSE
  PreFixF9 = FALSE
  ThirdPartyFatal = FALSE
